@@ -37,7 +37,9 @@ def case_pair(c: dict) -> dict:
     ref = pipeline(dict(spec))
     if ref.get("error") or ref["stage"] != "done":
         return r.result(inadmissible=f"reference run failed at stage {ref['stage']}: {ref.get('error')}")
-    got = pipeline({**spec, "relabel": [perm, signs, shift]})
+    got = pipeline({**spec, "relabel": [perm, signs, shift], "previous": c.get("previous")})
+    if c.get("previous") is not None:
+        r.tag("manager-served-the-original-labelling-before")
     r.detail.update(ref={k: ref[k] for k in ("vw", "vJ", "vLTE", "type")}, got={k: got.get(k) for k in ("vw", "vJ", "vLTE", "type", "stage", "error")})
     if got.get("error"):
         r.true(f"no-exception@{got['stage']}", False, error=got["error"], stage=got["stage"])
@@ -135,6 +137,14 @@ def cases(tier):
             for sh in shifts:
                 out.append(dict(base=base, Tn=Tn, perm=perm, signs=signs, shift=sh, M=20,
                                 id=f"{base},Tn={Tn:g},perm={perm},signs={signs},shift={sh}"))
+    # the relabelled model set up on a manager that has ALREADY been set up for the original labelling at the same nucleation
+    # temperature (one manager re-used for several descriptions of the same physics): every group element with the generic translation
+    for gi, (perm, signs) in enumerate(MD.hyperoctahedral(2)):
+        if tier == "quick" and gi % 3 != 1:
+            continue
+        sh = [37.0, -11.0]
+        out.append(dict(base="xsm2", Tn=100.0, perm=perm, signs=signs, shift=sh, M=20, previous={"relabel": None},
+                        id=f"xsm2,Tn=100,perm={perm},signs={signs},shift={sh},manager=re-used(original labelling first)"))
     # the same group WITH an out-of-equilibrium particle whose mass depends on field 0 of the ORIGINAL labelling (transformed with
     # the fields) and the synthetic relaxation collision operator of C01/offeq: Boltzmann-coupled path of the solver
     obases = [("xsm2", 100.0)] if tier == "quick" else [("xsm2", 100.0), ("xsm3", 100.0), ("cubicS", 100.0)]
